@@ -90,6 +90,16 @@ def step (s : St) (line : String) : St × String :=
     let (n', evs) := handleBlobs s.proposer s.n da [(b, oracleOf o)] []
     let ret := if n'.crashed then "panic" else ret
     ({ s with n := { n' with crashed := false } }, s!"blob ret={ret} events={showEvents evs} hm={showMarks n'.hMarks} dm={showMarks n'.dMarks}")
+  | "seen" =>
+    match headerStage (oracleOf o) (o.bytes "blob") with
+    | .ok sh => ({ s with n := { s.n with seenH := sh.header.hash :: s.n.seenH } }, "ok")
+    | _ => (s, "undecodable")
+  | "p2phdr" =>
+    match headerStage (oracleOf o) (o.bytes "blob") with
+    | .ok sh =>
+      let evs := if p2pAdmit (oracleOf o) s.proposer sh then [Event.hdr sh s.n.daHeight] else []
+      (s, s!"p2p events={showEvents evs}")
+    | _ => (s, "undecodable")
   | "flood" =>
     let da := o.nat "da"
     let entry := (da, o.bytes "blob", oracleOf o)
